@@ -261,7 +261,68 @@ func runC13(c *core.Ctx) {
 			})
 		}
 	}
-	c.R.Bound = fmt.Sprintf("%d accepted-side schemas (bases + valid edits); full rule catalogue at every site of the bases (thorough: + every 7th variant)", len(subjects))
+	// ---------------- directive definition graphs (rule "no definition cycles"): every digraph of directive uses on
+	// directive arguments over 3 directives with one argument (thorough: 4), and over 2 directives with two arguments.
+	// Accepted iff acyclic; refused naming a directive that lies on a cycle.
+	type dg struct {
+		n   int
+		two bool
+	}
+	dgs := []dg{{3, false}, {2, true}}
+	if c.Thorough() {
+		dgs = append(dgs, dg{4, false})
+	}
+	for _, g := range dgs {
+		bits := uint(g.n * g.n)
+		if g.two {
+			bits *= 2
+		}
+		for m := uint64(0); m < 1<<bits; m++ {
+			if !c.OwnsIdx(int64(m)) {
+				continue
+			}
+			if m&1023 == 0 && c.Expired() {
+				completed = false
+				break
+			}
+			sdl := dirGraphSDL(g.n, m, g.two)
+			onCycle, cyclic := dirGraphCycle(g.n, m, g.two)
+			c.Eval()
+			c.R.Distinct++
+			c.Nontrivial()
+			l := loadSDL(sdl)
+			desc := fmt.Sprintf("directive graph n=%d two-arguments=%v mask=%#x", g.n, g.two, m)
+			if l.pi != nil {
+				c.Outcome("panic")
+				c.Violation("panic", map[string]string{"site": l.pi.Site, "class": l.pi.Class, "route": "sdl", "rule": "R14"}, detail(desc, "sdl", sdl, nil, l.pi.Value))
+				continue
+			}
+			switch {
+			case !cyclic && l.err != nil:
+				c.Outcome("rejected-valid")
+				c.Violation("rejected-valid", map[string]string{"route": "sdl", "why": "directive-graph-acyclic"}, detail(desc, "sdl", sdl, l.err, "a schema whose directive definitions form no cycle was refused"))
+			case cyclic && l.err == nil:
+				c.Outcome("accepted-invalid")
+				c.Violation("accepted-invalid", map[string]string{"rule": "R14", "site": "directive-graph", "route": "sdl"}, detail(desc, "sdl", sdl, nil, "directive definitions form a cycle but the schema was accepted"))
+			case cyclic:
+				named := false
+				for i, on := range onCycle {
+					if on && strings.Contains(l.err.Error(), fmt.Sprintf("dq%d", i)) {
+						named = true
+					}
+				}
+				if !named {
+					c.Outcome("offender-not-named")
+					c.Violation("offender-not-named", map[string]string{"rule": "R14", "site": "directive-graph", "route": "sdl"}, detail(desc, "sdl", sdl, l.err, "the error names no directive that lies on a cycle"))
+				} else {
+					c.Outcome("rejected-naming-offender")
+				}
+			default:
+				c.Outcome("accepted+rechecked")
+			}
+		}
+	}
+	c.R.Bound = fmt.Sprintf("%d accepted-side schemas (bases + valid edits); all directive-use digraphs over 3 directives (thorough 4) and 2 directives x 2 arguments; full rule catalogue at every site of the bases (thorough: + every 7th variant)", len(subjects))
 	if !completed {
 		c.Cap("deadline reached")
 	}
